@@ -4,6 +4,7 @@ C16 — no message content can crash the client; colouring never alters text.
 -/
 import DtailModel.Lemmas.Color
 import DtailModel.Lemmas.GenBrush
+set_option autoImplicit false
 namespace Dtail.C16
 open Dtail
 
